@@ -189,7 +189,7 @@ pub fn rule_text(prop: u8) -> &'static str {
         5 => "(kind, n = 2^e + jitter with e up to 16 quick / 20 thorough, one of 6 priority patterns, an optional bulk operation, then up to 40 single-element operations with generated target class and new-priority class on an evolving queue); every public call is bracketed by a thread-local Ord::cmp counter and compared with fixed bounds: 0 for peek/peek_min/len/lookups, <=1 for peek_max, <=16*(floor(log2 n)+1)+32 for single-element operations, <=4*(n+k)+64 (PriorityQueue) / 6*(n+k)+64 (DoublePriorityQueue) for bulk rebuilds; non-trivial = n>=1024 (at small n the logarithmic bound does not separate from linear) or a zero-comparison probe on n>=2; distinct = hash of the case",
         10 => "history in which generated operations run with a fuse armed: the k-th Ord::cmp / Hash / Eq / Clone / predicate-or-setter / feeding-iterator callback inside the operation panics (k scaled into the number of callbacks counted on a clone, thorough tier sweeps every k), the panic is caught, and generated continuations plus a deterministic battery (pop all, remove all, pushes and priority changes, retain/iter_mut/drain, conversions) run on the survivor; iter_mut and drain guards are also leaked with mem::forget; oracle = the sanitizing build must not abort and no instrumented item/priority instance may be dropped twice or leaked; non-trivial = a fuse fired inside an operation on >=3 elements with >=3 continuation operations, or a guard leaked on a non-empty queue; distinct = hash of the case",
         14 => "a content set S and two independent histories (different constructors, hashers, capacities) equalised to S, a near-miss variant (one priority / one item removed / one added / two priorities exchanged), a From<Vec>-built third queue, then a clone driven in lock-step and one-sidedly; non-trivial = |S|>=3 and the two routes produced different raw arrangements, or the lock-step continuation had >=5 mutating ops; distinct = hash of the case",
-        18 => "a history executed under 5 BuildHasher configurations (RandomState via new(), fixed SipHash, RandomState via with_hasher, XxHash64, all-colliding), each against the model, traces compared pairwise up to ties; non-trivial = >=10 ops incl. a removal, a priority change and a checked extraction on size>=4, all configurations incl. the colliding one run; distinct = hash of the case",
+        18 => "a history executed under 6 BuildHasher configurations (RandomState via new(), fixed SipHash, RandomState via with_hasher, XxHash64, all-colliding, four-valued), each against the model, traces compared pairwise up to ties; non-trivial = >=10 ops incl. a removal, a priority change and a checked extraction on size>=4, all configurations incl. the colliding one run; distinct = hash of the case",
         _ => "see DESIGN.md",
     }
 }
@@ -350,6 +350,7 @@ pub struct WorkerArgs {
     pub replay_dir: String,
     pub known_path: String,
     pub strict: bool,
+    pub nworkers: u32,
 }
 
 /// Generic proptest loop for the history-based properties.
@@ -375,6 +376,47 @@ pub fn run_history_property(a: &WorkerArgs) -> WorkerReport {
             acc.rep.violations.push(ViolationRec { signature: f.signature(), detail: f.detail, replay: path, step: 0 });
         }
         acc.rep.extra.insert("zst_battery_cases".into(), serde_json::json!(4 * 3 * 5));
+    }
+    // exhaustive small-scope enumeration (partitioned over the workers)
+    {
+        let small = crate::enumerate::small_cases(prop);
+        let mut ran = 0u64;
+        for (i, case) in small.iter().enumerate() {
+            if (i as u32) % a.nworkers.max(1) != (a.worker % 100) % a.nworkers.max(1) {
+                continue;
+            }
+            journal.write(&case.to_json());
+            let cfg = cfg_for(prop, case);
+            let r = run_one(case, &cfg, false);
+            ran += 1;
+            let nt = nontrivial(prop, &r.stats);
+            match r.verdict {
+                Verdict::Fail(f) => {
+                    let sig = f.signature();
+                    if known.iter().any(|k| k.signature == sig) {
+                        *acc.rep.known.entry(sig).or_insert(0) += 1;
+                    } else if !acc.rep.violations.iter().any(|v| v.signature == sig) {
+                        let path = format!("{}/{}-{:016x}.json", a.replay_dir, pid, case.hash64());
+                        let _ = std::fs::write(&path, case.to_json());
+                        acc.rep.violations.push(ViolationRec { signature: sig, detail: f.detail, replay: path, step: f.step });
+                    }
+                }
+                Verdict::HarnessBug(m) => {
+                    if acc.rep.harness_bugs.len() < 5 {
+                        acc.rep.harness_bugs.push(format!("{} case={}", m, case.to_json()));
+                    }
+                }
+                Verdict::Foreign(f) => {
+                    *acc.rep.foreign.entry(f.signature()).or_insert(0) += 1;
+                }
+                Verdict::Pass => acc.record(case, case.hash64(), r.stats.max_size, nt, &r.stats),
+            }
+        }
+        if !small.is_empty() {
+            acc.rep.extra.insert("exhaustive_cases".into(), serde_json::json!(ran));
+            acc.rep.extra.insert("exhaustive".into(), serde_json::json!(true));
+            acc.rep.extra.insert("exhaustive_space".into(), serde_json::json!(crate::enumerate::space_text(prop)));
+        }
     }
     while remaining > 0 && failures_left > 0 {
         let mut runner = TestRunner::new_with_rng(Config { cases: remaining, ..config.clone() }, TestRng::from_seed(RngAlgorithm::ChaCha, &mix_seed(a.seed, prop, a.worker, leg)));
